@@ -30,11 +30,14 @@ type mdEndpoint struct {
 	Binding, Location string
 	Index             int
 	IsDefault         *bool
+	Resp              *string // ResponseLocation: legal on any IndexedEndpoint, meaningless for an ACS; never a target of anything
 }
 
 type mdKey struct {
 	Use   string
 	Certs []string
+	// EncryptionMethod children: what the SP says it can decrypt; the IdP's cipher is fixed, so they select nothing
+	Methods []string
 }
 
 type mdDesc struct {
@@ -73,10 +76,13 @@ func (e mdEntity) real() *saml.EntityDescriptor {
 	for _, d := range e.Descs {
 		var sd saml.SPSSODescriptor
 		for _, a := range d.ACS {
-			sd.AssertionConsumerServices = append(sd.AssertionConsumerServices, saml.IndexedEndpoint{Binding: a.Binding, Location: a.Location, Index: a.Index, IsDefault: a.IsDefault})
+			sd.AssertionConsumerServices = append(sd.AssertionConsumerServices, saml.IndexedEndpoint{Binding: a.Binding, Location: a.Location, Index: a.Index, IsDefault: a.IsDefault, ResponseLocation: a.Resp})
 		}
 		for _, k := range d.Keys {
 			kd := saml.KeyDescriptor{Use: k.Use}
+			for _, m := range k.Methods {
+				kd.EncryptionMethods = append(kd.EncryptionMethods, saml.EncryptionMethod{Algorithm: m})
+			}
 			for _, cs := range k.Certs {
 				kd.KeyInfo.X509Data.X509Certificates = append(kd.KeyInfo.X509Data.X509Certificates, saml.X509Certificate{Data: cs})
 			}
@@ -119,6 +125,10 @@ type areq struct {
 	II          *int64 // nil: attribute absent
 	ACSURL      string
 	ACSIndex    string
+	// optional children and attributes a request may legally carry; none of them takes part in the guards
+	CondNOA *int64 // <saml:Conditions NotOnOrAfter=…>
+	CondNB  *int64
+	Extras  bool // ForceAuthn / IsPassive / ProviderName attributes, NameIDPolicy, RequestedAuthnContext, Subject
 }
 
 func xmlAttrEsc(s string) string {
@@ -145,9 +155,28 @@ func (a areq) xml(lex int) []byte {
 	if a.ACSURL != "" {
 		fmt.Fprintf(&sb, ` AssertionConsumerServiceURL="%s"`, xmlAttrEsc(a.ACSURL))
 	}
+	if a.Extras {
+		sb.WriteString(` ForceAuthn="true" IsPassive="false" ProviderName="Some SP" ProtocolBinding="urn:oasis:names:tc:SAML:2.0:bindings:HTTP-POST"`)
+	}
 	sb.WriteString(`>`)
 	if a.Issuer != nil {
 		fmt.Fprintf(&sb, `<saml:Issuer Format="urn:oasis:names:tc:SAML:2.0:nameid-format:entity">%s</saml:Issuer>`, xmlAttrEsc(*a.Issuer))
+	}
+	if a.Extras {
+		sb.WriteString(`<saml:Subject><saml:NameID>someone@example.com</saml:NameID></saml:Subject><samlp:NameIDPolicy Format="urn:oasis:names:tc:SAML:2.0:nameid-format:transient" AllowCreate="true"/>`)
+	}
+	if a.CondNOA != nil || a.CondNB != nil {
+		sb.WriteString(`<saml:Conditions`)
+		if a.CondNB != nil {
+			fmt.Fprintf(&sb, ` NotBefore="%s"`, lexTime(*a.CondNB, lex))
+		}
+		if a.CondNOA != nil {
+			fmt.Fprintf(&sb, ` NotOnOrAfter="%s"`, lexTime(*a.CondNOA, lex))
+		}
+		sb.WriteString(`/>`)
+	}
+	if a.Extras {
+		sb.WriteString(`<samlp:RequestedAuthnContext Comparison="exact"><saml:AuthnContextClassRef>urn:oasis:names:tc:SAML:2.0:ac:classes:PasswordProtectedTransport</saml:AuthnContextClassRef></samlp:RequestedAuthnContext>`)
 	}
 	sb.WriteString(`</samlp:AuthnRequest>`)
 	return []byte(sb.String())
@@ -359,6 +388,10 @@ func (c *Ctx) randMD(id string) mdEntity {
 				b := c.chance(0.5)
 				ep.IsDefault = &b
 			}
+			if c.chance(0.3) {
+				r := fmt.Sprintf("https://sp.example.com/other-response-location%d", c.rng.Intn(3))
+				ep.Resp = &r
+			}
 			d.ACS = append(d.ACS, ep)
 		}
 		e.Descs = append(e.Descs, d)
@@ -386,6 +419,35 @@ func (c *Ctx) genC05() {
 				a := areq{ID: "id-dest", Issuer: sp(issuers[0]), Version: sp("2.0"), II: &ii, Destination: d}
 				c.count("c05-destination", "near-miss-alone")
 				c.idpValidate(goodReg, []string{issuers[0]}, a, now, delay, post)
+			}
+		}
+	}
+	// optional parts of a request (Conditions with its own deadlines, ForceAuthn, NameIDPolicy, RequestedAuthnContext, Subject)
+	// change nothing about the guards: freshness is IssueInstant + MaxIssueDelay whatever the requester's own deadline says
+	{
+		goodReg := registry{issuers[0]: regEntry{kind: "f", md: mdEntity{EntityID: issuers[0], Descs: []mdDesc{{ACS: []mdEndpoint{{Binding: saml.HTTPPostBinding, Location: "https://sp.example.com/acs0", Index: 1}}}}}}}
+		year := int64(365 * 24 * 3600 * 1000)
+		for _, iiOff := range []int64{-1000, -(delay - 1), -(delay + 1), -3600000, -year} {
+			for _, cond := range []string{"none", "future", "past", "nb-future"} {
+				for _, extras := range []bool{false, true} {
+					for _, post := range []bool{false, true} {
+						ii := now + iiOff
+						a := areq{ID: "id-opt", Issuer: sp(issuers[0]), Version: sp("2.0"), II: &ii, Extras: extras}
+						switch cond {
+						case "future":
+							v := now + year
+							a.CondNOA = &v
+						case "past":
+							v := now - year
+							a.CondNOA = &v
+						case "nb-future":
+							v := now + year
+							a.CondNB = &v
+						}
+						c.count("c05-optional-parts", cond+"/"+fmt.Sprint(extras))
+						c.idpValidate(goodReg, []string{issuers[0]}, a, now, delay, post)
+					}
+				}
 			}
 		}
 	}
